@@ -246,6 +246,36 @@ def mes(case, U, tie="lexico", init=(), b0=None, branch=False):
     return results
 
 
+def mes_iterated(case, U, inc, tie="lexico", branch=False, max_tries=2000):
+    """iterated Equal Shares from its stopping rule, on top of the textbook procedure above (no library code): the voters
+    start with budget/n each, then budget/n + inc, budget/n + 2 inc, ...; the answer is the outcome at the first voter
+    budget whose outcome is exhaustive — judged over the projects the rule can buy at all (supported, positive cost) — or
+    else the outcome of the last try before the first one whose outcome costs more than the budget limit.  Every try runs
+    over ALL supported projects, also those dearer than the whole budget limit: inflated voter budgets can pay for them,
+    and the try that does is the infeasible one that ends the iteration.
+    -> (list of outcomes (lists of names; one if not branch), tries, why, outcomes of the last try) with why in
+       {"exhaustive", "infeasible"}; (None, tries, "bound", None) if max_tries is reached"""
+    n = len(case.ballots)
+    names = case.names
+    supported = [p for p in names if any(U[v][p] > 0 for v in range(n))]
+    buyable = [p for p in supported if case.cost[p] > 0]
+    B = case.budget
+    b = B / n
+    prev = [[p for p in supported if case.cost[p] == 0]]  # before any try: the free supported projects
+    for tries in range(1, max_tries + 1):
+        if branch:
+            outs = [sorted(W) for W in mes(case, U, b0=b, branch=True)]
+        else:
+            outs = [list(mes(case, U, tie=tie, b0=b)[0])]
+        if any(total(case.cost, W) > B for W in outs):
+            return prev, tries, "infeasible", outs
+        if any(exhaustive(case.cost, W, buyable, B) for W in outs):
+            return outs, tries, "exhaustive", outs
+        b += inc
+        prev = outs
+    return None, max_tries, "bound", None
+
+
 # ----------------------------------------------------------------------------------------------
 # greedy, textbook: round by round, any set function
 
